@@ -216,13 +216,28 @@ def r20_1(ctx):
                 l = cu.strip_casts(f, f.kid(n, 0))
                 if l is not None and l['k'] == 'member':
                     root, path = cu.member_path(f, l)
-                    if root is not None and root.get('name') == 'external' and \
+                    if root is not None and 'YR_EXTERNAL_VARIABLE' in (root.get('t') or '') and \
                             path and path[0] in ('value', 'type'):
                         return True
             if n['k'] == 'call' and n.get('callee') == 'yr_free':
                 return True
             return False
         stores, bad, wrong, mism = _type_guarded_store(ctx, f, is_store, vals, ('YR_EXTERNAL_VARIABLE',))
+        if not stores:
+            # the function stores nothing itself: it may hand the definition to a sibling
+            # API function, which is correct only if that sibling admits exactly this
+            # function's types (the scanner-level boolean does this: OBJECT_TYPE_INTEGER
+            # is the scanner's representation of both)
+            sib = [c for c in f.calls() if c.get('callee') in RULES_LEVEL and c['callee'] != fname]
+            if sib:
+                stypes = RULES_LEVEL[sib[0]['callee']][0]
+                same = set(stypes) == set(types)
+                ctx.ob('R20.1', '%s:type-check-dominates-store' % fname, same, f.loc(sib[0]),
+                       'delegates to %s, which admits the same stored types' % sib[0]['callee'] if same else
+                       '%s hands the definition to %s, which compares the stored type with %s, not '
+                       'with %s: a definition of the right type is rejected and one of the wrong '
+                       'type is accepted' % (fname, sib[0]['callee'], '/'.join(stypes), '/'.join(types)))
+                continue
         ctx.require(stores, '%s: no value store recognised' % fname)
         ctx.ob('R20.1', '%s:type-check-dominates-store' % fname, not bad,
                f.loc(bad[0]) if bad else '%s:%s' % (f.file, f.line),
@@ -270,10 +285,26 @@ def r20_1(ctx):
                else 'the type-mismatch exit does not return ERROR_INVALID_EXTERNAL_VARIABLE_TYPE')
         # unknown identifier: obj == NULL -> ERROR_INVALID_ARGUMENT
         ok = bool(hs) and all(h_[0]['unknown_ok'] for h_ in hs)
+        # the looked-up object: the variable that receives the table lookup's result
+        lks = [c_ for c_ in f.calls() if (c_.get('callee') or '').startswith('yr_hash_table_lookup')]
+        objv = None
+        if lks:
+            hold = paths.value_holder(f, lks[0])
+            objv = hold[1] if hold[0] == 'var' else None
         for n in f.all_nodes():
-            if n['k'] == 'if':
-                c = f.kid(n, 0)
-                if c is not None and 'obj == ' in f.show(c):
+            if n['k'] == 'if' and objv is not None:
+                c = cu.strip_casts(f, f.kid(n, 0))
+                isnull = False
+                if c is not None and c['k'] == 'bin' and c['op'] == '==':
+                    for x, y in ((f.kid(c, 0), f.kid(c, 1)), (f.kid(c, 1), f.kid(c, 0))):
+                        xs = cu.strip_casts(f, x)
+                        if xs is not None and xs['k'] == 'ref' and xs['name'] == objv and \
+                                cu.const_of(cu.strip_casts(f, y)) == 0:
+                            isnull = True
+                elif c is not None and c['k'] == 'un' and c['op'] == '!':
+                    xs = cu.strip_casts(f, f.kid(c, 0))
+                    isnull = xs is not None and xs['k'] == 'ref' and xs['name'] == objv
+                if isnull:
                     for r in f.walk(f.kid(n, 1)):
                         if r['k'] == 'ret' and cu.const_of(cu.strip_casts(f, f.kid(r, 0))) == EARG:
                             ok = True
@@ -383,7 +414,7 @@ def r20_4(ctx):
             if a['k'] == 'bin' and a['op'] == '=':
                 l = cu.strip_casts(f, f.kid(a, 0))
                 root, path = cu.member_path(f, l) if l is not None else (None, [])
-                if root is not None and root.get('name') == 'external':
+                if root is not None and 'YR_EXTERNAL_VARIABLE' in (root.get('t') or ''):
                     if path == ['type']:
                         got_t = cu.const_of(cu.strip_casts(f, f.kid(a, 1)))
                     if len(path) == 2 and path[0] == 'value':
@@ -400,7 +431,7 @@ def r20_4(ctx):
             if a['k'] == 'bin' and a['op'] == '=':
                 l = cu.strip_casts(f, f.kid(a, 0))
                 root, path = cu.member_path(f, l) if l is not None else (None, [])
-                if root is not None and root.get('name') == 'external' and len(path) == 2 \
+                if root is not None and 'YR_EXTERNAL_VARIABLE' in (root.get('t') or '') and len(path) == 2 \
                         and path[0] == 'value':
                     members.add(path[1])
         ctx.ob('R20.4', '%s:stores-value.%s' % (fname, member), members == set([member]),
